@@ -108,4 +108,25 @@ def laceFlag (cmd : FlagCmd) (global loc : FlagArg) (fuel : Nat) (name dest : Li
             | _ => false
           .finished { status := r.status, out := r.out, image := none, named := r.status == 1 && gate }
 
+/-- One `lace run <name>.lc3 --minimal` process on an OBJECT file with these bytes, the option given
+before and / or after the subcommand: the features are initialised from the option exactly as for a
+source (`main` does it before the command's arm is entered), then the loader and the run loop. -/
+def laceFlagObj (global loc : FlagArg) (fuel : Nat) (name : List Char) (bytes : List Nat) (inp : List Nat) :
+    FlagProc :=
+  match featuresOf2 global loc with
+  | .error _ => .finished { status := 2, out := [], image := none, named := false }
+  | .ok flag =>
+    match runObjFile flag true fuel name bytes inp with
+    | .panic s => .panic s
+    | .fuel => .fuel
+    | .finished r =>
+      -- exit status 1: a file of odd length ("not aligned", does not name the feature), the
+      -- opcode-0xD gate (names it), GETC/IN at the end of input (does not)
+      let gate : Bool :=
+        bytes.length % 2 == 0 &&
+        match Run.fromRaw (wordsOfBytes bytes) with
+        | .ok m => !flag && lastIsOpD (Run.fetchedWords flag true fuel m (runWorld name inp))
+        | _ => false
+      .finished { status := r.status, out := r.out, image := none, named := r.status == 1 && gate }
+
 end Lace.Cli
